@@ -60,6 +60,9 @@ def variants(st0, tier):
         out.append((lab, (lambda nx: lambda: nx.build())(nx)))
     out.append(('mirrored', lambda: st0.build().mirrored(tuple([1.] + [0.] * (dim - 1)))))
     out.append(('scaled', lambda: st0.build().scaled(tuple([2., -.5, 1.5][:dim]))))
+    if dim >= 2:
+        # exact rigid motion: rotation by 90 degrees about the last axis and a dyadic translation
+        out.append(('rot90', lambda: st0.build().morphed(lambda p: -p[1] + .25, lambda p: p[0] - 1.5)))
     if st0.kind != 'wedge':
         out.append(('refined', lambda: st0.build().refined()))
         if st0.kind in ('line', 'tri', 'tet'):
@@ -274,6 +277,15 @@ def monomial_checks(st0, m, name, lab, tier, out):
     bfac = [int(j) for j in m.boundary_facets()]
     ifac = [j for j in range(nf) if j not in bfac]
     E = default_elem(kind)
+    pmax = float(np.abs(m.p).max())
+    vol_f = float(sum((abs(ex.simplex_signed_measure([tuple(Fr(float(x)) for x in m.p[:, v]) for v in m.t[:dim + 1, c]]))
+                       for c in range(nt)), Fr(0))) if kind in ('line', 'tri', 'tet') else float(
+        np.prod(m.p.max(axis=1) - m.p.min(axis=1)))
+    fmeas = {}
+    if fv is not None:
+        for j in range(nf):
+            r = facet_exact(kind, m, j, (0,) * dim, fv)
+            fmeas[j] = 1.0 if r is None else float(r[0]) * math.sqrt(float(r[1]))
     sig0 = f"C02|{type(m).__name__}|"
 
     def bad(what, msg, **kw):
@@ -304,12 +316,14 @@ def monomial_checks(st0, m, name, lab, tier, out):
             tot = float(sum(per_cell, Fr(0)))
             got = F.assemble(cb)
             el = F.elemental(cb)
-            mag = sum(abs(float(v)) for v in per_cell) + 1e-300
+            # scale of the integrand (not of the possibly cancelling integral): |x|max^deg * measure
+            floor_ = (1 + pmax) ** sum(mono) * vol_f * 1e-3
+            mag = sum(abs(float(v)) for v in per_cell) + floor_
             if abs(got - tot) > 2e-12 * (mag + abs(tot)):
                 bad('cells', f"integral of x^{mono} with order {n} = {got!r}, exact {tot!r}", order=n, monomial=mono)
                 continue
             ec = np.array([float(v) for v in per_cell])
-            if el.shape != ec.shape or np.abs(el - ec).max() > 2e-12 * (np.abs(ec).max() + 1e-300) + 1e-300:
+            if el.shape != ec.shape or np.abs(el - ec).max() > 2e-12 * (np.abs(ec).max() + floor_):
                 c = int(np.abs(el - ec).argmax())
                 bad('cell-elemental', f"cell {c}: integral of x^{mono} with order {n} = {el[c]!r}, exact {ec[c]!r}", order=n,
                     monomial=mono)
@@ -357,7 +371,7 @@ def monomial_checks(st0, m, name, lab, tier, out):
                     out.count('non_parallelogram_facets_skipped')
                     return True
                 es = sum(fe[j] for j in fac)
-                mg = sum(abs(fe[j]) for j in fac) + 1e-300
+                mg = sum(abs(fe[j]) for j in fac) + (1 + pmax) ** sum(mono) * sum(fmeas[j] for j in fac) * 1e-3
                 gs = F.assemble(basis)
                 out.ev()
                 if abs(gs - es) > 4e-12 * (mg + abs(es)):
